@@ -37,11 +37,21 @@ CONSTANTS Vals,        \* element values written by the client (integers # Defau
           ReserveNs,   \* arguments of reserve
           AllocBelow,  \* offsets d of symbolic Allocate requests: -AllocBelow .. AllocAbove
           AllocAbove,  \* (a cfg file cannot contain a negative number)
-          ByteSized,   \* TRUE iff sizeof(T) = 1 (then no request exceeds max_size())
+          ESize,       \* sizeof(T)  } the element type; every law that depends on the type is a formula in these
+          EAlign,      \* alignof(T) } two numbers (AllocGuard: max_size(), requests that must succeed, usable bytes)
           Lifetime     \* TRUE iff the element type reports its construction / destruction accounting
 
 VARIABLES v, last
 vars == <<v, last>>
+
+ASSUME ETypeOK([size |-> ESize, align |-> EAlign])
+ByteSized == ESize = 1      \* then no request exceeds max_size()
+Self      == [size |-> ESize, align |-> EAlign]
+\* the types an allocator for T gets rebound to (rebind<U>::other - list / map nodes, control blocks, vector<bool> words):
+\* sizes of 1 byte, between multiples of 64, above 64 and not a power of two, over-aligned
+RebindTypes == {[size |-> 1, align |-> 1], [size |-> 24, align |-> 8], [size |-> 72, align |-> 8], [size |-> 96, align |-> 32],
+                [size |-> 200, align |-> 8], [size |-> 128, align |-> 128]}
+GenRebindTypes == {t \in RebindTypes : t.size \in {1, 72, 96}}     \* the ones the generation instance walks through
 
 AllocDs   == (0 - AllocBelow)..AllocAbove
 Other(i)  == 3 - i
@@ -130,20 +140,38 @@ Failed(a, arg) == a \in StrongOps /\ StepC(a, arg, v, [ret |-> "threw"], "copy-t
 
 \* aligned_allocator<T>().allocate(n) with a symbolic n; a successful request is filled and deallocated again.
 \*   beyond max_size()           : must throw std::length_error                       (the clause of the property)
-\*   small positive              : memory, 64-byte aligned
+\*   small positive (n * sizeof <= SmallBytes): memory, 64-byte aligned, n * sizeof bytes of it written
 \*   anything else (0, or huge but within max_size()): not length_error; null / memory / bad_alloc are all fine
 \* how: "plain" allocate(n); "hint" the allocate(n, hint) overload; "rebind" through rebind<T>::other of another
-\* allocator - the three must agree
-AllocHows == {"plain", "hint", "rebind"}
+\* allocator; "traits" through std::allocator_traits<aligned_allocator<T>>::rebind_alloc<T> (the allocator type a
+\* std::vector really allocates through) - the four must agree;
+\* "rebind_to": through std::allocator_traits<aligned_allocator<T>>::rebind_alloc<U> for ANOTHER type U = `to`
+\* (what node-based containers do) - the same laws with sizeof(U) / alignof(U) in the place of sizeof(T) / alignof(T).
+\* Besides the outcome the step states what the formulas of AllocGuard give for the type the allocator is bound
+\* to (exp.ty for T itself, exp.rty for U): sizeof, alignof, max_size() and the request n as 64-bit numbers, the bytes made
+\* usable.  (A generation instance knows one T: exp.ty of its histories holds for element types with that sizeof / alignof.)
+AllocHows == {"plain", "hint", "rebind", "traits"}
+TyCls(t)  == "size=" \o ToString(t.size) \o ",align=" \o ToString(t.align)
+AllocateTy(how, t, arg, self, bo) ==
+  LET rel == arg.rel
+      d   == arg.d
+      small == SmallRequest(t.size, rel, d)
+      info  == [size |-> t.size, align |-> t.align, max_size |-> MaxSize64(t.size), n |-> Request64(t.size, rel, d),
+                bytes |-> IF small THEN d * t.size ELSE 0]
+  IN
+  /\ ETypeOK(t)
+  /\ Representable(t.size = 1, rel, d)
+  /\ StepB("Allocate", arg, v,
+           (IF MustThrow(rel, d) THEN [ret |-> "length_error", len_err |-> TRUE]
+            ELSE IF small THEN [ret |-> "ok", amod64 |-> 0, len_err |-> FALSE]
+            ELSE [len_err |-> FALSE]) @@ (IF self THEN [ty |-> info] ELSE [rty |-> info]),
+           (IF how = "plain" THEN "" ELSE IF self THEN how \o "," ELSE how \o "(" \o TyCls(t) \o "),") \o
+             (IF MustThrow(rel, d) THEN "n>max_size" ELSE IF small THEN "n=small" ELSE IF rel = "abs" /\ d = 0 THEN "n=0" ELSE "n<=max_size"),
+           bo)
 Allocate(how, rel, d) ==
-  /\ Representable(ByteSized, rel, d)
-  /\ StepB("Allocate", [how |-> how, rel |-> rel, d |-> d], v,
-           IF MustThrow(rel, d) THEN [ret |-> "length_error", len_err |-> TRUE]
-           ELSE IF rel = "abs" /\ d > 0 THEN [ret |-> "ok", amod64 |-> 0, len_err |-> FALSE]
-           ELSE [len_err |-> FALSE],
-           (IF how = "plain" THEN "" ELSE how \o ",") \o
-             (IF MustThrow(rel, d) THEN "n>max_size" ELSE IF rel = "abs" /\ d > 0 THEN "n=small" ELSE IF rel = "abs" THEN "n=0" ELSE "n<=max_size"),
-           Representable(TRUE, rel, d))
+  how \in AllocHows /\ AllocateTy(how, Self, [how |-> how, rel |-> rel, d |-> d], TRUE, Representable(TRUE, rel, d))
+AllocateTo(to, rel, d) ==
+  AllocateTy("rebind_to", to, [how |-> "rebind_to", to |-> [size |-> to.size, align |-> to.align], rel |-> rel, d |-> d], FALSE, TRUE)
 
 Next ==
   \/ \E i \in 1..2, x \in Vals : PushBack(i, x) \/ PushBackRv(i, x) \/ InsertMid(i, x)
@@ -159,6 +187,9 @@ Next ==
   \/ \E d \in AllocDs, how \in AllocHows :
         /\ how = "plain" \/ v = <<<<>>, <<>>>>
         /\ (d >= 0 /\ Allocate(how, "abs", d)) \/ Allocate(how, "max", d) \/ (d > 0 /\ Allocate(how, "ovf", d))
+  \/ \E to \in GenRebindTypes :
+        /\ v = <<<<>>, <<>>>>
+        /\ AllocateTo(to, "abs", 1) \/ (\E d \in {-1, 0, 1} : AllocateTo(to, "max", d)) \/ AllocateTo(to, "ovf", 1)
 
 Spec == Init /\ [][Next]_vars
 
@@ -200,4 +231,13 @@ NoNewValues ==
 LifeBalanced == Lifetime => (last.exp.life.live = Len(v[1]) + Len(v[2]))
 \* the length_error clause: thrown exactly for requests beyond max_size()
 ThrowsIffBeyond == [][last'.a = "Allocate" => (last'.exp.len_err <=> MustThrow(last'.arg.rel, last'.arg.d))]_vars
+\* the type laws, whatever the type: what must succeed is aligned to 64 and never what must throw; max_size() is tight
+TypeLaws ==
+  [][last'.a = "Allocate" =>
+       LET e == last'.exp
+           t == IF "ty" \in DOMAIN e THEN e.ty ELSE e.rty IN
+         /\ (t.bytes > 0 => e.ret = "ok" /\ e.amod64 = 0 /\ ~e.len_err /\ t.bytes % t.size = 0 /\ t.bytes <= SmallBytes)
+         /\ t.max_size = MaxSize64(t.size)
+         /\ (last'.arg.rel = "max" /\ last'.arg.d = 0 => t.n = t.max_size /\ ~e.len_err)
+         /\ (last'.arg.how # "rebind_to" <=> "ty" \in DOMAIN e) /\ ("ty" \in DOMAIN e => t.size = ESize /\ t.align = EAlign)]_vars
 ===============================================================================
